@@ -572,8 +572,8 @@ func (st *SlimTrie) getIthLeafBytes(ith int32) []byte {
 }
 
 func (st *SlimTrie) getLabels(qr *querySession) []uint64 {
-	bm, _ := st.getInnerBM(qr)
-	return bmtree.Decode(qr.to-qr.from, bm)
+	bm, size := st.getInnerBM(qr)
+	return bmtree.Decode(size, bm)
 }
 
 // getInnerBM retrieves the inner node bitmap cached by a querySession, and the size of bitmap.
@@ -584,7 +584,9 @@ func (st *SlimTrie) getInnerBM(qr *querySession) ([]uint64, int32) {
 	storedBMSize := qr.to - qr.from
 
 	if storedBMSize == ns.ShortSize {
-		return bmtree.Decode(innerSize, []uint64{qr.bm}), innerSize
+		// a short node caches its full 17-bit bitmap; return the bitmap, not its
+		// decoded paths, so that callers decode it once with the returned size.
+		return []uint64{qr.bm}, innerSize
 	}
 
 	// normal or big inner node
